@@ -237,3 +237,174 @@ def c16(tier):
            "samples": [meta[1]["change"], {"kind": meta[1]["kind"], "sid": meta[1]["sid"]}] if pairs else [{"none": True}],
            "explanation": "TLC evaluates Metamorphic.tla on every pair"}
     return rep, "exploration", cov, ["tax amounts below $10M", "listing lines exempt from renumbering equality: Schedule B payer/amount rows"]
+
+
+# ---------------------------------------------------------------------------------------------
+# C09 gates
+
+def _strip_inst(name):
+    f, l = name.split(".", 1)
+    return f.split(":")[0] + "." + l
+
+
+def gate_summary(trace, res, gate_inputs, year, oid, limits):
+    reads = set()
+    for ev in trace["events"]:
+        if ev["ev"] != "attempt":
+            continue
+        reader = _strip_inst(ev["line"])
+        for (k, name, dg) in ev["reads"]:
+            if k == "in":
+                g = _strip_inst(name)
+                if g in gate_inputs:
+                    reads.add((g, dg, reader))
+    return {"oid": oid, "year": year, "solved": bool(res.get("solved")) and not res["abort"],
+            "reads": [{"g": g, "val": v, "reader": r} for (g, v, r) in sorted(reads)], "limits": limits}
+
+
+def limit_facts(year, given, res):
+    """the three amount limits of the property, judged on the inputs of the run"""
+    out = []
+    ft = 0.0
+    for k, v in given.items():
+        if re.match(r"^1099-int:\d+\.box_6$", k) or re.match(r"^1099-div:\d+\.box_7$", k):
+            try:
+                ft += float(v or 0)
+            except ValueError:
+                pass
+    st = given.get("1040.filing_status", "")
+    lim = 600.0 if st == "MarriedFilingJointly" else 300.0
+    vals = res.get("values", {})
+    s3_demanded = "1040_s3.1" in vals or any(u.startswith("1040_s3.") for u in res.get("unimpl", []))
+    out.append({"name": "foreign tax above the Form 1116 election threshold", "exceeded": bool(ft > lim + 0.005 and (s3_demanded or "1040.20" in vals))})
+    for t in ("1099-int", "1099-div"):
+        n = int(given.get("1040.number_" + t, "0") or 0)
+        out.append({"name": "more %s payers than Schedule B has rows" % t, "exceeded": n > 14 and any(k.startswith("1040_sb.") for k in vals)})
+    return out
+
+
+def c09(tier):
+    import random
+    rep = common.Reporter("C09", tier)
+    sd = common.seed()
+    cat = json.load(open(os.path.join(common.ROOT, "data", "gates.json")))["gates"]
+    gate_inputs = set(g["input"] for g in cat)
+    aff = {}
+    for g in cat:
+        aff.setdefault(g["input"], g["affirmative"])
+    scs = real_checks.explore(tier, sd, per_year=(40 if tier == "quick" else 400), replays=False, snap="none")
+    per_gate = 2 if tier == "quick" else 12          # solved base returns in which each gate is flipped (per year)
+    flips_done = {}
+    obs, meta = [], {}
+    nflip = 0
+    flipped_gates = set()
+
+    def add(trace, res, year, info, given):
+        oid = len(obs) + 1
+        obs.append(gate_summary(trace, res, gate_inputs, year, oid, limit_facts(year, given, res)))
+        meta[oid] = info
+
+    for sc in scs:
+        year, request, given = sc["year"], sc["request"], sc["given"]
+        add(sc["trace"], sc["res"], year, {"kind": "base", "sid": sc["sid"], "year": year, "request": request, "given": given}, given)
+        read_gates = set()
+        if not sc["res"].get("solved"):
+            continue            # a silent success can only show where everything else is fine
+        for g in given:
+            gb = _strip_inst(g)
+            if gb in gate_inputs and flips_done.get((year, gb), 0) < per_gate:
+                read_gates.add(g)
+                flips_done[(year, gb)] = flips_done.get((year, gb), 0) + 1
+        for g in sorted(read_gates):
+            a = aff[_strip_inst(g)]
+            text = {"True": "yes", "False": "no"}.get(a, a)
+            gform = g.split(".")[0]
+            payer_reads = set()        # payer-form amounts that lines of the gate's own form read in the base run
+            for ev in sc["trace"]["events"]:
+                if ev["ev"] == "attempt" and ev["line"].split(".")[0] == gform:
+                    for (k3, n3, _d3) in ev["reads"]:
+                        if k3 == "ln" and n3.split(".")[0].split(":")[0] in ("1098", "1099-int", "1099-div", "1099-g", "1099-r", "w-2"):
+                            payer_reads.add(n3)
+            for variant in ("flip", "flip+own-amounts", "flip+own-amounts-no-payer-amounts"):
+                ov = dict(given)
+                ov[g] = text
+                if variant != "flip":
+                    # the gate may only matter for the form's other amounts: make the form's own zero amounts positive,
+                    # and (third variant) take the amounts of the payer forms (1098, 1099) away
+                    touched = False
+                    for k2, v2 in given.items():
+                        if sc["kinds"].get(k2) != "FloatInput":
+                            continue
+                        f2 = k2.split(".")[0]
+                        if f2 == gform and float(v2 or 0) == 0.0:
+                            ov[k2] = "300.00"
+                            touched = True
+                        elif variant.endswith("no-payer-amounts") and k2 in payer_reads:
+                            ov[k2] = "0.00"
+                            touched = True
+                    if not touched:
+                        continue
+                rng = random.Random("flip-%s-%s" % (sc["sid"], g))
+                p = scenarios.Profile(rng, year=year)
+                tr, res, solver, ans = scenarios.solve_scenario(year, request, p, rng, overrides=ov, snap="none")
+                nflip += 1
+                flipped_gates.add(_strip_inst(g))
+                add(tr, res, year, {"kind": variant, "gate": g, "value": text, "sid": sc["sid"], "year": year, "request": request, "given": dict(ans.given)}, ans.given)
+    # amounts beyond an implemented limit
+    for year in scenarios.YEARS:
+        for kind in ("payers-int", "payers-div", "foreign", "hsa"):
+            for rep_k in range(2 if tier == "quick" else 8):
+                rng = random.Random("lim-%d-%s-%d-%d" % (year, kind, rep_k, sd))
+                p = scenarios.Profile(rng, year=year, nc=False)
+                ov = {}
+                if kind == "payers-int":
+                    p.n["1099-int"] = 15
+                    ov = {"1099-int:%d.box_1" % n: "150.00" for n in range(15)}
+                elif kind == "payers-div":
+                    p.n["1099-div"] = 15
+                    ov = {"1099-div:%d.box_1a" % n: "150.00" for n in range(15)}
+                elif kind == "foreign":
+                    p.n["1099-int"] = max(1, p.n["1099-int"])
+                    ov = {"1099-int:0.box_6": "%.2f" % (601.0 + rep_k)}
+                else:
+                    p.sched1_adjust = True
+                tr, res, solver, ans = scenarios.solve_scenario(year, ["1040"], p, rng, overrides=ov, snap="none")
+                given = ans.given
+                lims = limit_facts(year, given, res)
+                if kind == "hsa":
+                    continue
+                add(tr, res, year, {"kind": "limit-" + kind, "year": year, "request": ["1040"], "given": dict(given)}, given)
+    work = common.mkwork()
+    try:
+        rows, res_t = run_oracle("Gates", "HV_FACTS_FILE", {"gates": cat, "obs": obs}, work, "C09")
+    finally:
+        common.rmwork(work)
+    if res_t.distinct != len(obs) + 1:
+        raise common.MachineryError("Gates.tla judged %d of %d observations" % (res_t.distinct - 1, len(obs)))
+    for row in rows:
+        kind, oid, what = row[0], int(row[1]), "|".join(row[2:])
+        m = meta[oid]
+        if kind == "gate":
+            for g, val, reader in re.findall(r'g \|-> \\?"([^"\\]+)\\?", val \|-> \\?"([^"\\]+)\\?", reader \|-> \\?"([^"\\]+)\\?"', what) or \
+                    [(x[0], x[2], x[1]) for x in re.findall(r'g \|-> \\?"([^"\\]+)\\?", reader \|-> \\?"([^"\\]+)\\?", val \|-> \\?"([^"\\]+)\\?"', what)]:
+                rep.violation("gate:%d:%s=%s read by %s" % (m["year"], g, val, reader),
+                              "solved although %s = %s was read by %s (%s %s)" % (g, val, reader, m["kind"], m.get("sid", "")),
+                              {"kind": "scenario", "year": m["year"], "request": m["request"], "given": m["given"]})
+        else:
+            rep.violation("limit:%d:%s" % (m["year"], what[:80]), "solved although %s" % what, {"kind": "scenario", "year": m["year"], "request": m["request"], "given": m["given"]})
+    # freshness: gate-like inputs of the current tree that the frozen catalogue does not know
+    fresh = []
+    if tier == "thorough":
+        import derive_gates
+        cur = derive_gates.derive(1500)
+        known = set("%s=%s" % (g["input"], g["affirmative"]) for g in cat)
+        fresh = sorted(k for k in cur if k not in known)
+    cov = {"evaluations": len(obs), "distinct_nontrivial": len(set(flipped_gates)) + 1,
+           "rule": "base scenarios from the explorer; for every catalogued gate input that a base run supplied, the run repeated with that input affirmative; "
+                   "limit scenarios (15 payers, foreign tax above the threshold); distinct = distinct gates flipped",
+           "samples": [meta[len(obs)], {"reads": obs[0]["reads"][:4]}],
+           "catalogue_gates": len(cat), "gates_flipped": sorted(flipped_gates), "flipped_runs": nflip, "base_runs": len(scs),
+           "gates_never_read": sorted(gate_inputs - flipped_gates), "gate_like_inputs_missing_from_catalogue": fresh,
+           "explanation": "TLC evaluates Gates.tla (solved => no affirmative gate read by a non-exempt reader, no exceeded limit) on the trace summary of every explored run"}
+    return rep, "exploration", cov, ["the gate catalogue (data/gates.json) is frozen and reviewed; it was drafted by forced execution (harness/derive_gates.py)",
+                                     "HSA-above-limit scenarios are covered through the 8889 gates (age_under_55 / hsa_full_year) and C08's limit amounts"]
